@@ -40,6 +40,7 @@ type Mount struct {
 
 	mu     sync.Mutex
 	caches map[string]*nodeCache
+	gens   map[string]uint64 // per node: bumped by every invalidation (a fill that raced with one is not cached)
 
 	// Invalidation counters, for evidence and debugging.
 	InvalRange, InvalDB, InvalSHM, InvalPos, InvalEntry atomic.Int64
@@ -57,7 +58,7 @@ func New(store *litefs.Store) *Mount {
 	fsys := lfuse.NewFileSystem("", store)
 	fsys.VerifAttachServer()
 	root, _ := fsys.Root()
-	m := &Mount{Store: store, FS: fsys, Root: root.(*lfuse.RootNode), caches: map[string]*nodeCache{}}
+	m := &Mount{Store: store, FS: fsys, Root: root.(*lfuse.RootNode), caches: map[string]*nodeCache{}, gens: map[string]uint64{}}
 	store.Invalidator = m
 	return m
 }
@@ -87,6 +88,7 @@ func (m *Mount) dropAll(name string) {
 	m.mu.Lock()
 	defer m.mu.Unlock()
 	delete(m.caches, name)
+	m.gens[name]++
 }
 
 func (m *Mount) InvalidateDB(db *litefs.DB) error {
@@ -99,6 +101,7 @@ func (m *Mount) InvalidateDBRange(db *litefs.DB, offset, size int64) error {
 	m.InvalRange.Add(1)
 	m.mu.Lock()
 	defer m.mu.Unlock()
+	m.gens[db.Name()]++
 	c := m.caches[db.Name()]
 	if c == nil || size <= 0 {
 		return nil
@@ -330,6 +333,7 @@ func (f *File) ReadAt(p []byte, off int64) (int, error) {
 		b := pos / BlockSize
 		m.mu.Lock()
 		blk, ok := m.cache(f.Name).blocks[b]
+		gen := m.gens[f.Name]
 		m.mu.Unlock()
 		if !ok {
 			nblocks := int64(1)
@@ -347,6 +351,11 @@ func (f *File) ReadAt(p []byte, off int64) (int, error) {
 			}
 			m.mu.Lock()
 			c := m.cache(f.Name)
+			// The kernel keeps the pages of an in-flight read locked, so an
+			// invalidation that arrives meanwhile waits and then drops them: a
+			// fill that raced with an invalidation never stays cached.
+			raced := m.gens[f.Name] != gen
+			blk = nil
 			for i := int64(0); i < nblocks; i++ {
 				lo := i * BlockSize
 				if lo >= int64(len(data)) && i > 0 {
@@ -356,11 +365,16 @@ func (f *File) ReadAt(p []byte, off int64) (int, error) {
 				if lo < int64(len(data)) {
 					copy(nb, data[lo:])
 				}
-				if _, exists := c.blocks[b+i]; !exists {
+				if i == 0 {
+					blk = nb
+				}
+				if _, exists := c.blocks[b+i]; !exists && !raced {
 					c.blocks[b+i] = nb
 				}
 			}
-			blk = c.blocks[b]
+			if cached, ok := c.blocks[b]; ok {
+				blk = cached
+			}
 			m.mu.Unlock()
 		}
 		lo := pos - b*BlockSize
